@@ -59,6 +59,7 @@ def gen(seed, tier):
             if not p: continue
             probes.append(('noexceptsMds<md::mdspan<int, %s, NeLayout>>()' % cxx_ext(t, p), 'nem=' + '1' * 11, None))
             probes.append(('memberTypesMds<md::mdspan<int, %s, SzLayout>>()' % cxx_ext(t, p), 'mtm=11111', None))
+            probes.append(('strideCtorFacts<%s>()' % cxx_ext(t, p), 'sc=11111', None))
     return probes
 
 def sources(probes, ntu=16):
@@ -92,7 +93,7 @@ def check(prop, tier, seed, replay=None):
             pub = dict(probe=[ex, want, m], config=cfg)
             if 'pat=- ' not in want: rep.nontrivial(ex)
             if xi != want:
-                kind = 'member-type-not-as-specified' if ex.startswith('memberTypes') else 'operation-the-specification-declares-noexcept-is-not' if ex.startswith('noexcept') else 'deduction-guide-gives-another-type-than-specified'
+                kind = 'member-type-not-as-specified' if ex.startswith('memberTypes') else 'operation-the-specification-declares-noexcept-is-not (or a deduction / construction it prescribes is ill-formed)' if ex.startswith(('noexcept', 'strideCtor')) else 'deduction-guide-gives-another-type-than-specified'
                 rep.violation(dict(kind=kind, impl=xi, specified=want, **pub)); continue
             if m and probes.index((ex, want, m)) in mout:
                 xm = mout[probes.index((ex, want, m))]
